@@ -36,6 +36,19 @@ def replay_set_file_attr(inp):
         st = os.stat(p)
         if (st.st_mode & 0o777) != 0o640 or int(st.st_atime) != 1000 or int(st.st_mtime) != 2000:
             bad.append({"chmod/utime": "not applied", "mode": oct(st.st_mode & 0o777)})
+        # special bits only: the rwx bits requested are the ones the file already has
+        for before, want in ((0o755, 0o4755), (0o4755, 0o755), (0o600, 0o2600), (0o1777, 0o777), (0o644, 0o644)):
+            p = os.path.join(d, "h")
+            open(p, "wb").write(b"x")
+            os.chmod(p, before)
+            a = SFTPAttributes()
+            a.st_mode = want
+            a._flags = SFTPAttributes.FLAG_PERMISSIONS
+            SFTPServer.set_file_attr(p, a)
+            got = os.stat(p).st_mode & 0o7777
+            if got != want:
+                bad.append({"mode_before": oct(before), "requested": oct(want), "mode_after": oct(got)})
+            os.chmod(p, 0o600)
     finally:
         import shutil
         shutil.rmtree(d, ignore_errors=True)
